@@ -707,3 +707,29 @@ package app
 //@ define appOK(app *App) = app.config != nil && app.logger != nil && app.t != nil && timingsOK(app.t) && app.dcs != nil && app.appDCS != nil && app.cluster != nil && clusterOK(app.cluster) && app.switchHelper != nil && app.replRepairState != nil && app.slaveReadPositions != nil
 //@ typeinv *app.Timings timingsOK init app.NewTimings
 //@ typeinv *app.App appOK init app.NewApp, (*app.App).connectDCS, (*app.App).newDBCluster
+
+// ---- C20: what the manager knows about the hosts it iterates over -----------------------------------------------
+// statesOK: every collected state is non-nil and belongs to a host that was registered when the states were collected
+// (sequential reading: the registry is refreshed only by UpdateHostsInfo, see DESIGN.md on the concurrent refresh).
+//@ define statesOK(app *App, cs map[string]*nodestate.NodeState) = forall k string :: has(cs, k) ==> cs[k] != nil && regd(app.cluster, k)
+
+//@ func (*app.App).getNodeState
+//@   requires registered [safety]: regd(app.cluster, host) || host == app.cluster.local.host
+//@   ensures C20.state_nonnil [C20]: result != nil
+
+//@ func (*app.App).getLocalNodeState
+//@   ensures C20.state_nonnil [C20]: result != nil
+
+//@ func (*app.App).getClusterStateFromDB$1
+//@   requires registered [safety]: regd(app.cluster, host) || host == app.cluster.local.host
+//@   ensures C20.getter_nonnil [C20,par]: result1 == nil ==> result0 != nil
+
+//@ func (*app.App).getClusterStateFromDB
+//@   ensures C20.states_ok [C20]: statesOK(app, result)
+
+//@ func (*app.App).getClusterStateFromDcs$1
+//@   ensures C20.getter_nonnil [C20,par]: result1 == nil ==> result0 != nil
+
+//@ func (*app.App).getClusterStateFromDcs
+//@   ensures C20.states_ok [C20]: result1 == nil ==> statesOK(app, result0)
+//@   ensures C20.err_nil_map [C20]: result1 != nil ==> result0 == nil
